@@ -205,14 +205,18 @@ StepD ==
 
 \* flush of the replier's own sink (three call sites: replier stream ended,
 \* requestor map empty, exit) -- `after` says what follows
-SrvFlush(here, okNext, okUpd(_)) ==
+SrvFlush(here, okNext, okUpd(_), unbindOnErr) ==
     /\ s.pc = here
     /\ LET r == s.server IN
        IF s.rbrk[r]
        THEN IF FixD5
-            THEN \* error ignored / replier unbound
-                 /\ s' = okUpd([s EXCEPT !.server = 0, !.pc = okNext])
-                 /\ h' = HUnbind(h, r)
+            THEN IF unbindOnErr
+                 THEN \* the replier's connection failed: unbind it
+                      /\ s' = okUpd([s EXCEPT !.server = 0, !.pc = okNext])
+                      /\ h' = HUnbind(h, r)
+                 ELSE \* (replier stream ended) the error is ignored, the replier is unbound below anyway
+                      /\ s' = okUpd([s EXCEPT !.pc = okNext])
+                      /\ h' = h
             ELSE s' = Goto(s, "panic") /\ h' = h
        ELSE IF s.rflu[r]
        THEN /\ s' = okUpd([s EXCEPT !.rflushed[r] = Len(h.rgot[r]), !.pc = okNext])
@@ -221,7 +225,15 @@ SrvFlush(here, okNext, okUpd(_)) ==
 
 Id(x) == x
 \* replier stream ended: flush its sink, then the Router sink, then unbind
-StepDend == SrvFlush("Dend", "flush", LAMBDA st : [st EXCEPT !.ret = "srvend", !.todo = st.rsinks])
+StepDend == SrvFlush("Dend", "flush", LAMBDA st : [st EXCEPT !.ret = "srvend", !.todo = st.rsinks], FALSE)
+
+\* poll_flush of one requestor sink
+FlushOn(c) ==
+    IF s.cbrk[c] = "flush"
+    THEN s' = [s EXCEPT !.rsinks = @ \ {c}, !.todo = @ \ {c}] /\ h' = h
+    ELSE IF s.cflu[c]
+    THEN s' = [s EXCEPT !.cflushed[c] = Len(h.crecv[c]), !.todo = @ \ {c}] /\ h' = h
+    ELSE s' = [s EXCEPT !.cswk[c] = TRUE, !.pc = "idle"] /\ h' = h
 
 \* Router::poll_flush (router.rs:139-161) over the requestor sinks in HashMap order
 StepFlush ==
@@ -240,12 +252,7 @@ StepFlush ==
               [] s.ret = "exit" ->
                     /\ s' = IF s.server # 0 THEN Goto(s, "Gend2") ELSE Goto(s, "idle")
                     /\ h' = h
-       ELSE \E c \in s.todo :
-            IF s.cbrk[c] = "flush"
-            THEN s' = [s EXCEPT !.rsinks = @ \ {c}, !.todo = @ \ {c}] /\ h' = h
-            ELSE IF s.cflu[c]
-            THEN s' = [s EXCEPT !.cflushed[c] = Len(h.crecv[c]), !.todo = @ \ {c}] /\ h' = h
-            ELSE s' = [s EXCEPT !.cswk[c] = TRUE, !.pc = "idle"] /\ h' = h
+       ELSE \E c \in s.todo : FlushOn(c)
 
 \* (E) reqrep.rs:204-213  buffered reply -> Router sink: poll_ready over all sinks
 StepE ==
@@ -253,15 +260,18 @@ StepE ==
     /\ IF s.bufRep # None THEN s' = [s EXCEPT !.pc = "Erdy", !.todo = s.rsinks] /\ h' = h
                           ELSE s' = Goto(s, "F") /\ h' = h
 
+\* poll_ready of one requestor sink
+ReadyOn(c) ==
+    IF s.cbrk[c] = "ready"
+    THEN s' = [s EXCEPT !.rsinks = @ \ {c}, !.todo = @ \ {c}] /\ h' = h
+    ELSE IF s.crdy[c]
+    THEN s' = [s EXCEPT !.todo = @ \ {c}] /\ h' = h
+    ELSE s' = [s EXCEPT !.cswk[c] = TRUE, !.pc = "idle"] /\ h' = h
+
 StepErdy ==
     /\ s.pc = "Erdy"
     /\ IF s.todo = {} THEN s' = Goto(s, "Esend") /\ h' = h
-       ELSE \E c \in s.todo :
-            IF s.cbrk[c] = "ready"
-            THEN s' = [s EXCEPT !.rsinks = @ \ {c}, !.todo = @ \ {c}] /\ h' = h
-            ELSE IF s.crdy[c]
-            THEN s' = [s EXCEPT !.todo = @ \ {c}] /\ h' = h
-            ELSE s' = [s EXCEPT !.cswk[c] = TRUE, !.pc = "idle"] /\ h' = h
+       ELSE \E c \in s.todo : ReadyOn(c)
 
 \* Router::start_send (router.rs:104-137)
 StepEsend ==
@@ -278,14 +288,15 @@ StepEsend ==
        ELSE /\ s' = [s EXCEPT !.bufRep = None, !.pc = "F"]
             /\ h' = [h EXCEPT !.crecv[c] = Append(@, <<c, n>>)]
 
+StartAt(st) == /\ s' = [s EXCEPT !.start = st, !.idx = st, !.cap = Len(s.streams), !.pc = "Fpoll"]
+               /\ h' = h
+
 \* (F) reqrep.rs:215-243  StreamMap of requestor streams
 StepF ==
     /\ s.pc = "F"
     /\ IF s.streams = <<>>
        THEN s' = [s EXCEPT !.pc = "flush", !.ret = "cend", !.todo = s.rsinks] /\ h' = h
-       ELSE \E st \in 0..(Len(s.streams) - 1) :
-            /\ s' = [s EXCEPT !.start = st, !.idx = st, !.cap = Len(s.streams), !.pc = "Fpoll"]
-            /\ h' = h
+       ELSE \E st \in 0..(Len(s.streams) - 1) : StartAt(st)
 
 StepFpoll ==
     /\ s.pc = "Fpoll"
@@ -324,7 +335,7 @@ StepFpoll ==
                                    !.idx = (s.idx + 1) % Len(s.streams)]
                  /\ h' = h
 
-StepFend2 == SrvFlush("Fend2", "G", LAMBDA st : [st EXCEPT !.strPend = IF FixD4 THEN TRUE ELSE @])
+StepFend2 == SrvFlush("Fend2", "G", LAMBDA st : [st EXCEPT !.strPend = IF FixD4 THEN TRUE ELSE @], TRUE)
 
 \* (G) reqrep.rs:245-255
 StepG ==
@@ -333,7 +344,7 @@ StepG ==
        THEN s' = [s EXCEPT !.pc = "flush", !.ret = "exit", !.todo = s.rsinks] /\ h' = h
        ELSE s' = [s EXCEPT !.pc = "A", !.srvPend = FALSE, !.strPend = FALSE] /\ h' = h
 
-StepGend2 == SrvFlush("Gend2", "idle", Id)
+StepGend2 == SrvFlush("Gend2", "idle", Id, TRUE)
 
 RouterNext ==
     \/ StartPoll /\ ahead' = 0
